@@ -432,6 +432,19 @@ func vmProgram(r *rand.Rand, g *vmGen) (*gen.Program, []gen.VarInfo) {
 			cands[k]()
 		}
 	}
+	if r.Intn(3) == 0 {
+		// arithmetic on operands that are not exactly representable, map equality across insertion orders
+		decl("md1", tNum, gen.Binary{Op: "%", L: nl([]float64{1, 5.5, 7.25, 0.7}[r.Intn(4)]), R: nl([]float64{0.1, 0.3, 0.7}[r.Intn(3)]), T: tNum}, -1, nil)
+		decl("md2", tNum, gen.Binary{Op: "%", L: nl(10000000000000000000000), R: nl(float64(3 + r.Intn(9))), T: tNum}, -1, nil)
+		decl("md3", tNum, gen.Binary{Op: "%", L: gen.Unary{Op: "-", X: nl(7.5)}, R: nl(2), T: tNum}, -1, nil)
+		decl("md4", tNum, gen.Binary{Op: "/", L: nl(1), R: nl(3), T: tNum}, -1, nil)
+		decl("mq1", tMapN, gen.MapLit{T: tMapN, Keys: []string{"x", "y", "z"}, Vals: []gen.Expr{nl(1), nl(2), nl(3)}}, -1, []string{"x", "y", "z"})
+		decl("mq2", tMapN, gen.MapLit{T: tMapN, Keys: []string{"z", "x", "y"}, Vals: []gen.Expr{nl(3), nl(1), nl(2)}}, -1, []string{"z", "x", "y"})
+		decl("mq3", tMapN, gen.MapLit{T: tMapN, Keys: []string{"x", "y", "w"}, Vals: []gen.Expr{nl(1), nl(2), nl(3)}}, -1, []string{"x", "y", "w"})
+		decl("beq", tBool, gen.Binary{Op: "==", L: vr("mq1", tMapN), R: vr("mq2", tMapN), T: tBool}, -1, nil)
+		decl("bne", tBool, gen.Binary{Op: "!=", L: vr("mq2", tMapN), R: vr("mq1", tMapN), T: tBool}, -1, nil)
+		decl("bk", tBool, gen.Binary{Op: "==", L: vr("mq1", tMapN), R: vr("mq3", tMapN), T: tBool}, -1, nil)
+	}
 	top = append(top, g.stmts(3, 3+r.Intn(5))...)
 	globals := append([]gen.VarInfo(nil), g.scopes[0]...)
 	g.globals = globals
